@@ -10,7 +10,15 @@ Case kinds (all JSON):
   setfilter    {"enum", "bits", "value", "stale", "mask", "dev", "inst", "as_int", "fault"}
   queryfilter  {"enum", "bits", "unit", "via_module", "dev", "inst", "as_int", "fault"}
   scheme       {"scheme", "as_enum", "initial", "refuse", "dev", "inst", "as_int", "fault"}
-  discover     {"devices": [{"short", "status", "inst": [[enabled, type], ...]}], "selector", "fault"}
+               setfilter / queryfilter with "names": [member names of a library enum]: the filter is composed BY NAME
+               (Filter.short_press | Filter.long_press_stop) and "value" / "unit" hold the standard's bits for them
+  enumtable    {"enum"}: the member names and values of a library filter enum against the standard's table
+  discover     {"devices": [{"short", "status", "inst": [[enabled, type], ...]}], "selector", "fault",
+                "before": None or {"how": "initial"|"add_type"|"scan", "devices", "selector", "clear": bool}}
+                selector = ["default"] | ["int", N] | ["pair", lo, hi] | [form, [addresses]] with form one of
+                list / tuple / gen / iter / map / filter / range (contiguous) - the iterables a caller may pass;
+                "before": the SAME mapper object was used before this scan - filled through initial= / add_type() /
+                an earlier scan of another population - and (normally) clear()ed
 "fault" = None or [k, "silence"|"garble"]: the answer to the k-th query of the sequence (modulo the
 number of queries of the fault-free run) is suppressed / turned into a framing error whose data
 bits differ from the true answer.
@@ -20,7 +28,7 @@ import itertools
 from hypothesis import strategies as st
 
 from harness import hyp
-from harness.bus import Bus, Fault, NonTermination
+from harness.bus import Bus, Fault, NonTermination, run_interleaved
 from harness.model_device import DeviceModel, InstanceModel
 from harness.runner import Result, library_frame
 
@@ -29,12 +37,27 @@ LEVEL = "exploration"
 RULE = ("input value: every (resolution, value) up to 12 bits (quick) / 16 bits (thorough) x resolution passed or "
         "queried x filler patterns, boundary and Hypothesis-drawn values up to 32 bits; filters: every flag combination "
         "of the push-button/occupancy/light enums and plain ints 0..255 x stale DTR contents, generated enums of 9..24 "
-        "flags x boundary and drawn combinations x stale DTRs x partially implemented filters; schemes: all (initial, "
-        "requested) pairs, refused and invalid ones; discovery: fixed and Hypothesis-drawn buses of 0..64 devices; every "
+        "flags x boundary and drawn combinations x stale DTRs x partially implemented filters; the library enums' member "
+        "tables against the standard and every combination of their members composed by name, set and queried; schemes: all (initial, "
+        "requested) pairs, refused and invalid ones; discovery: fixed and Hypothesis-drawn buses of 0..64 devices, the "
+        "addresses given as default / int / (start, end) / list / tuple / range / iterator / generator / map / filter, the "
+        "mapper fresh or used before (filled through initial= / add_type() / a scan of another population, then clear()ed "
+        "or not) and read back through .mapping, get_type() and event decoding; every "
         "sequence also with silence / framing error at each query.  Enumerated cases are distinct by construction, drawn "
         "ones by fingerprint.  Non-trivial = resolution > 8, or filter wider than 8 bits, or a population with an "
-        "unhealthy device / disabled instance / duplicate address, or any fault case")
+        "unhealthy device / disabled instance / duplicate address, or any fault case; several sequences in flight: (2 or 3 "
+        "cases of any of the kinds above, advance order) - every ordered pair of a palette of cases (same device and instance "
+        "address on separate buses; different values, filter widths 8/16/24, input widths 1..4 bytes, stale DTRs, "
+        "populations; some with a fault; part of it seed-derived) x a list of advance orders (round-robin, reversed, blocks "
+        "of 2 and 3, head starts, one sequence completely inside the other, strictly sequential), every order of the first "
+        "eight advances for some pairs, triples, plus Hypothesis-generated tuples; non-trivial = at least two of the "
+        "sequences overlap in time (neither finished before the other started) and the cases are not all identical")
 ASSUMPTIONS = [
+    "the filter bits of the library's push-button / occupancy / light filter enums are those of IEC 62386-301 Table 3 "
+    "(button released 1, button pressed 2, short press 4, double press 8, long press start 16, long press repeat 32, long "
+    "press stop 64, button stuck/free 128), -303 Table 3 (occupied 1, vacant 2, repeat 4, movement 8, no movement 16) and "
+    "-304 Table 2 (illuminance level 1), transcribed into FILTER_TABLE under the library's member names; each enum has "
+    "exactly these members",
     "control devices follow harness/model_device.py: an instance stores its event filter at the native width of its type "
     "(8, 16 or 24 bits); the filter type handed to the library matches that width (plain ints: 8 bits)",
     "the unused low bits of the last input-value byte are arbitrary (IEC 62386-103 9.7.2 makes them a repetition of the "
@@ -54,6 +77,13 @@ ASSUMPTIONS = [
     "under a fault in autodiscover the missing entries must belong to the device whose answer was lost; whether the "
     "whole device or only one instance is skipped is not prescribed",
     "two or more simultaneous answers are always seen as a framing error (as the library documents)",
+    "'records' is judged through every documented way of reading the mapper: the .mapping property (dict(), len, items, "
+    "==), get_type() and decoding a device/instance event with the mapper must all show the same entries; a mapper that "
+    "was clear()ed before the scan must show exactly this scan; one that was not cleared may also keep entries of its "
+    "earlier use for instances this scan did not look at",
+    "sequences in flight at the same time on separate buses (one driver per DALI line in one process; one "
+    "DeviceInstanceTypeMapper per line) are independent: each must put on its bus, do to its units, record and return "
+    "(or raise) exactly what it does when it runs alone on a fresh identical bus",
 ]
 
 # signatures of confirmed defects that a deterministic case reports; Hypothesis searches exclude and count them
@@ -64,6 +94,14 @@ DETERMINISTIC_SIGS = ()
 # flag positions of the library's filter enums, stated from IEC 62386-301 Table 3, -303 Table 3, -304 Table 2
 LIB_ENUMS = {"pushbutton": list(range(8)), "occupancy": list(range(5)), "light": [0]}
 LIB_TYPES = {"pushbutton": 1, "occupancy": 3, "light": 4}
+# member name -> filter bit of the library's filter enums, transcribed from IEC 62386-301 Table 3, -303 Table 3 and
+# -304 Table 2 (the names are the library's spelling of the standard's event names)
+FILTER_TABLE = {
+    "pushbutton": {"button_released": 1, "button_pressed": 2, "short_press": 4, "double_press": 8, "long_press_start": 16,
+                   "long_press_repeat": 32, "long_press_stop": 64, "button_stuck_free": 128},
+    "occupancy": {"occupied": 1, "vacant": 2, "repeat": 4, "movement": 8, "no_movement": 16},
+    "light": {"illuminance_level": 1},
+}
 
 _gen_cache = {}
 _NO_RAW = object()
@@ -126,8 +164,8 @@ def clean_run(build):
     return bus
 
 
-def drive(build, fault):
-    make_units, make_seq, judge, cap = build
+def fault_lookup(build, fault):
+    """(faults for the Bus, description for the judge) of a case's "fault" entry."""
     faults, finfo = (), None
     if fault:
         b0 = clean_run(build)
@@ -137,6 +175,12 @@ def drive(build, fault):
             true = b0.trace[step][3]
             faults = [Fault(step, fault[1], (true[0] ^ 0xA5) if true else 0x55)]
             finfo = {"step": step, "frame": b0.trace[step][1], "true": true, "kind": fault[1]}
+    return faults, finfo
+
+
+def drive(build, fault):
+    make_units, make_seq, judge, cap = build
+    faults, finfo = fault_lookup(build, fault)
     units = make_units()
     bus = Bus(units, faults=faults, max_commands=cap)
     try:
@@ -258,8 +302,15 @@ def build_setfilter(case):
                             instances=[InstanceModel(filter_width=24, filter=0x0A0B0C) for _ in range(i + 1)])
         return [DeviceModel(short=a, instances=insts, dtr=stale), other]
 
+    names = case.get("names")
+
     def make_seq(units):
         d, n = dest_args(L, case)
+        if names is not None:
+            fv = cls(0)
+            for nm in names:
+                fv = fv | cls.__members__[nm]          # composed by name, the way a caller writes it
+            return L["sequences"].SetEventFilters(device=d, instance=n, filter_value=fv)
         return L["sequences"].SetEventFilters(device=d, instance=n, filter_value=value if cls is int else cls(value))
 
     def judge(units, bus, out, finfo):
@@ -277,6 +328,9 @@ def build_setfilter(case):
             loaded = loads_before_set(bus.trace)
             if unit.set_filter_count == 0:
                 sig = "C13:set-filter-not-executed"
+            elif names is not None:
+                sig = "C13:filter-enum-member-value:" + case["enum"]
+                where = "%s composed by name from %s" % (where, " | ".join(names) or "no member")
             elif diff & 0xFF0000 and not diff & 0x00FFFF and 2 not in loaded:
                 sig = "C13:event-filter-dtr2-not-loaded"
             elif diff & 0x00FF00 and not diff & 0xFF00FF and 1 not in loaded:
@@ -330,6 +384,12 @@ def build_queryfilter(case):
             return [] if finfo is not None else [("C13:query-filter-returned-none", "%s returned None" % where)]
         if isinstance(r, bool) or not isinstance(r, int) or int(r) != f:
             return [("C13:query-filter-wrong" + (":under-fault" if finfo else ""), "%s returned %r" % (where, r))]
+        if case.get("names") is not None:
+            # the caller asks the result by name: exactly the members the standard assigns to the unit's bits
+            got = sorted(nm for nm, mem in cls.__members__.items() if int(mem) and int(r) & int(mem) == int(mem))
+            if got != sorted(case["names"]) or any((getattr(cls, nm) in r) != (nm in case["names"]) for nm in cls.__members__):
+                return [("C13:filter-enum-member-value:" + case["enum"], "%s: the result names %r, the unit's bits mean %r"
+                         % (where, got, sorted(case["names"])))]
         return []
     return make_units, make_seq, judge, 64
 
@@ -427,7 +487,21 @@ def selector_arg(sel):
         return tuple(sel[1])
     if k == "gen":
         return (x for x in sel[1])
+    if k == "iter":
+        return iter(list(sel[1]))
+    if k == "map":
+        return map(int, list(sel[1]))
+    if k == "filter":
+        return filter(lambda x: True, list(sel[1]))
+    if k == "range":
+        lst = list(sel[1])
+        if lst != list(range(lst[0], lst[0] + len(lst))) if lst else False:
+            raise ValueError("a range selector needs contiguous addresses")
+        return range(lst[0], lst[0] + len(lst)) if lst else range(0)
     raise ValueError(sel)
+
+
+ITERABLE_FORMS = ("list", "tuple", "gen", "iter", "map", "filter", "range")
 
 
 def expected_mapping(devices, addrs):
@@ -446,6 +520,62 @@ def expected_mapping(devices, addrs):
     return exp
 
 
+def used_mapper(L, before):
+    """A mapper object that has been in use: filled through initial=, add_type() or a scan of an earlier population."""
+    how = before["how"]
+    sel = before.get("selector", ["default"])
+    Mapper = L["helpers"].DeviceInstanceTypeMapper
+    if how == "scan":
+        m = Mapper()
+        units = [DeviceModel(short=d["short"], force_status=d["status"], name="e%d" % k,
+                             instances=[InstanceModel(type=t, enabled=en) for (en, t) in d["inst"]])
+                 for k, d in enumerate(before["devices"])]
+        bus = Bus(units, max_commands=400 + sum(2 + 2 * len(d["inst"]) for d in before["devices"]) * (
+            1 + (len(sel[1]) if sel[0] in ITERABLE_FORMS else 0)))
+        bus.run(m.autodiscover() if sel[0] == "default" else m.autodiscover(selector_arg(sel)))
+    else:
+        first = expected_mapping(before["devices"], selected_addresses(sel)[0])
+        if how == "initial":
+            m = Mapper(initial=dict(first))
+        else:
+            m = Mapper()
+            for (a, n), t in sorted(first.items()):
+                m.add_type(short_address=a if n % 2 else L["address"].DeviceShort(a),
+                           instance_number=L["address"].InstanceNumber(n) if a % 2 else n, instance_type=t)
+    len(m.mapping)                     # the caller has looked at it
+    return m
+
+
+def mapper_views(L, m, mapping, keys, where, suffix):
+    """.mapping (len / items / ==), get_type() and decoding an event with the mapper must agree with dict(.mapping)."""
+    from dali import command, frame
+    mp = m.mapping
+    if len(mp) != len(mapping) or dict(mp.items()) != mapping or not (mp == mapping) or sorted(mp, key=repr) != sorted(mapping, key=repr):
+        return [("C13:mapper-views-disagree" + suffix, "%s: .mapping read as dict() has %d entries, len() says %d, == says %s"
+                 % (where, len(mapping), len(mp), mp == mapping))]
+    probes = sorted(k for k in set(mapping) | set(keys) | {(0, 0), (63, 31)}
+                    if isinstance(k, tuple) and len(k) == 2 and all(isinstance(x, int) and not isinstance(x, bool) for x in k)
+                    and 0 <= k[0] <= 63 and 0 <= k[1] <= 31)
+    for a, n in probes:
+        want = mapping.get((a, n))
+        t = m.get_type(short_address=a if (a + n) % 2 else L["address"].DeviceShort(a),
+                       instance_number=n if n % 3 else L["address"].InstanceNumber(n))
+        if t != want:
+            return [("C13:mapper-get_type-differs-from-mapping" + suffix, "%s: get_type(%d, %d) = %r but .mapping says %r"
+                     % (where, a, n, t, want))]
+    step = max(1, len(probes) // 12)
+    for a, n in probes[::step][:16]:
+        want = mapping.get((a, n))
+        v = (a << 17) | 0x8000 | (n << 10) | ((a * 37 + n) & 0x3FF)
+        c = command.from_frame(frame.ForwardFrame(24, v), dev_inst_map=m)
+        amb = type(c).__name__ == "AmbiguousInstanceType"
+        if (want is None) != amb or (want is not None and getattr(c, "instance_type", None) != want):
+            return [("C13:mapper-decode-differs-from-mapping" + suffix, "%s: the device/instance event 0x%06X (device %d, instance %d) "
+                     "decodes as %s (instance type %r) but .mapping says %r"
+                     % (where, v, a, n, type(c).__name__, getattr(c, "instance_type", None), want))]
+    return []
+
+
 def build_discover(case):
     L = _lib()
     devices = case["devices"]
@@ -453,8 +583,16 @@ def build_discover(case):
     holder = {}
     costs = [2 + 2 * len(d["inst"]) for d in devices]
     ncmd = 300 + sum(costs)
-    if sel[0] in ("list", "tuple", "gen"):
+    if sel[0] in ITERABLE_FORMS:
         ncmd += len(sel[1]) * (1 + max(costs + [0]))
+    before = case.get("before")
+    # (under a fault a stale entry could legitimately survive for the instance whose answer was lost: always cleared then)
+    cleared = bool(before) and (before.get("clear", True) or bool(case.get("fault")))
+    first_hi = {}
+    if before:
+        # what the mapper may hold from its earlier use (read from the case, not from the library)
+        first_hi = expected_mapping(before["devices"], selected_addresses(before.get("selector", ["default"]))[
+            1 if before["how"] == "scan" else 0])
 
     def make_units():
         return [DeviceModel(short=d["short"], force_status=d["status"], name="d%d" % k,
@@ -462,12 +600,17 @@ def build_discover(case):
                 for k, d in enumerate(devices)]
 
     def make_seq(units):
-        m = L["helpers"].DeviceInstanceTypeMapper()
+        if before:
+            m = used_mapper(L, before)
+            if cleared:
+                m.clear()
+        else:
+            m = L["helpers"].DeviceInstanceTypeMapper()
         holder["m"] = m
         # A bus-wide mapper is scanned again and again: instances it already knows - with a type that is no longer
         # true, e.g. a unit was replaced - must end up with the type the unit reports NOW.  (Only fault-free cases and
         # only addresses that are certainly scanned, so that nothing stale may legitimately survive.)
-        if case.get("preload", len(devices) % 2 == 1) and not case.get("fault"):
+        if not before and case.get("preload", len(devices) % 2 == 1) and not case.get("fault"):
             must_addrs, _ = selected_addresses(sel)
             for (a, n), t in sorted(expected_mapping(devices, must_addrs).items()):
                 m.add_type(short_address=a, instance_number=n, instance_type=(t + 1 + n % 3) % 32)
@@ -476,9 +619,11 @@ def build_discover(case):
         return m.autodiscover(selector_arg(sel))
 
     def judge(units, bus, out, finfo):
-        where = "autodiscover(%s) on %d devices%s" % (
+        where = "autodiscover(%s) on %d devices%s%s" % (
             "" if sel[0] == "default" else "%s %r" % (sel[0], sel[1:] if sel[0] in ("int", "pair") else sel[1]),
-            len(devices), fault_text(finfo))
+            len(devices), fault_text(finfo),
+            "" if not before else " with a mapper that was filled before (%s, %d entries) and %s" % (
+                before["how"], len(first_hi), "clear()ed" if cleared else "not cleared"))
         if out[0] != "ret":
             return exc_violation("C13:discover", L, out, finfo, where)
         suffix = ":under-fault" if finfo else ""
@@ -494,6 +639,8 @@ def build_discover(case):
         for key in sorted(mapping, key=repr):
             if key in exp_hi and mapping[key] == exp_hi[key]:
                 continue
+            if before and not cleared and key in first_hi and mapping[key] == first_hi[key] and key not in exp_lo:
+                continue                       # known from the earlier use of this mapper and not scanned now
             if not (isinstance(key, tuple) and len(key) == 2):
                 vs.append(("C13:discover-bad-key" + suffix, "%s recorded key %r" % (where, key)))
                 break
@@ -501,6 +648,8 @@ def build_discover(case):
             ds = by.get(a, [])
             if a not in may:
                 sig = "C13:discover-address-outside-selection"
+            elif cleared and key in first_hi and mapping[key] == first_hi[key]:
+                sig = "C13:discover-mapping-keeps-cleared-entry"
             elif len(ds) != 1:
                 sig = "C13:discover-recorded-absent-or-colliding-device"
             elif ds[0]["status"] & UNHEALTHY:
@@ -515,7 +664,7 @@ def build_discover(case):
             break
         # 2. nothing missing (fault-free), or only entries of the device whose answer was lost
         missing = sorted(k for k in exp_lo if k not in mapping)
-        if sel[0] == "int" and any(k[0] == sel[1] for k in mapping) and not vs:
+        if sel[0] == "int" and any(k[0] == sel[1] for k in mapping) and not vs and not (before and not cleared):
             missing = sorted(k for k in exp_hi if k not in mapping)      # address N was scanned: then completely
         if missing:
             if finfo is None:
@@ -538,7 +687,10 @@ def build_discover(case):
             if loose:
                 vs.append(("C13:discover-quiescent-bracket" + suffix, "%s: units %r were queried outside quiescent mode or left in it"
                            % (where, loose[:5])))
+        # 4. every way of reading the mapper tells the same story as .mapping
+        vs += mapper_views(L, holder["m"], mapping, set(exp_hi) | set(first_hi), where, suffix)
         return vs
+    judge.recorded = lambda: sorted((repr(k), repr(v)) for k, v in holder["m"].mapping.items())
     return make_units, make_seq, judge, ncmd
 
 
@@ -546,7 +698,171 @@ BUILDERS = {"input": build_input, "setfilter": build_setfilter, "queryfilter": b
             "discover": build_discover}
 
 
+# --------------------------------------------------- several sequences in flight ----
+LAST_INTER = [None]     # (id(case), did the sequences really overlap in time) of the most recent interleaved case
+
+
+def _snap(o):
+    """Plain-data copy of a model object (every attribute, recursively)."""
+    if o is None or isinstance(o, (bool, int, float, str)):
+        return o
+    if isinstance(o, (list, tuple)):
+        return [_snap(x) for x in o]
+    if isinstance(o, (set, frozenset)):
+        return sorted((_snap(x) for x in o), key=repr)
+    if isinstance(o, dict):
+        return [[repr(k), _snap(v)] for k, v in sorted(o.items(), key=lambda kv: repr(kv[0]))]
+    if hasattr(o, "__dict__"):
+        return [[k, _snap(v)] for k, v in sorted(vars(o).items()) if not callable(v)]
+    return repr(o)
+
+
+class Flight:
+    """One case prepared for running: its own builder (closure state), units and bus."""
+
+    def __init__(self, case, faults_from=None):
+        self.case = case
+        self.build = BUILDERS[case["kind"]](case)
+        self.make_units, self.make_seq, self.judge, self.cap = self.build
+        # the position of a fault is found by a fault-free run of the same case on a bus of its own
+        self.faults, self.finfo = fault_lookup(self.build, case.get("fault")) if faults_from is None else \
+            (faults_from.faults, faults_from.finfo)
+        self.units = self.make_units()
+        self.bus = Bus(self.units, faults=self.faults, max_commands=self.cap)
+        self.out = None
+
+    def seq(self):
+        return self.make_seq(self.units)
+
+    def finish(self, oc):
+        """("returned", v) | ("raised", e)  ->  the verdict of the single-sequence oracle"""
+        if oc[0] == "returned":
+            self.out = ("ret", oc[1])
+        elif isinstance(oc[1], NonTermination):
+            self.out = ("nonterm", None)
+        else:
+            if library_frame(oc[1].__traceback__) is None:
+                raise oc[1]
+            self.out = ("exc", oc[1])
+        return self.judge(self.units, self.bus, self.out, self.finfo)
+
+    def run_alone(self):
+        try:
+            oc = ("returned", self.bus.run(self.seq()))
+        except Exception as e:  # noqa: classified by finish
+            oc = ("raised", e)
+        return self.finish(oc)
+
+    def result(self):
+        out = self.out
+        if out[0] == "nonterm":
+            return ("command cap reached",)
+        if out[0] == "exc":
+            return ("raised", type(out[1]).__name__, str(out[1]))
+        r = out[1]
+        raw = getattr(r, "raw_value", _NO_RAW)
+        if raw is not _NO_RAW:
+            return ("returned", type(r).__name__, None if raw is None else (raw.as_integer, bool(raw.error)))
+        if isinstance(r, int):
+            return ("returned", type(r).__name__, int(r))
+        return ("returned", type(r).__name__, repr(r))
+
+    def end_state(self):
+        """Everything the bus carried, everything its units hold and everything recorded when the sequence is over."""
+        st = [("frames and answers", [list(t) for t in self.bus.trace])]
+        for k, u in enumerate(self.units):
+            for name, v in _snap(u):
+                st.append(("unit #%d %s" % (k, name), v))
+        if hasattr(self.judge, "recorded"):
+            st.append(("recorded mapping", self.judge.recorded()))
+        return st
+
+    def where(self):
+        c = self.case
+        return "%s %s" % (c["kind"], {k: v for k, v in sorted(c.items()) if k != "kind" and v is not None and
+                                       (k != "devices" or len(v) <= 4)})
+
+
+def overlapping(order, n):
+    """Do at least two of the n sequences overlap in time (neither finished before the other started)?"""
+    first, last = {}, {}
+    for pos, i in enumerate(order):
+        first.setdefault(i, pos)
+        last[i] = pos
+    return any(first[i] < last[j] and first[j] < last[i] for i in first for j in first if i < j)
+
+
+def case_interleaved(case):
+    """{"kind": "interleaved", "jobs": [case, ...], "schedule": [...], "cycle": [...]}: several sequences in flight at
+    once, each on its own bus against its own units, advanced command by command in the order case['schedule'] (then
+    case['cycle'] repeatedly).  Each must satisfy the single-sequence oracle, return / raise what it returns / raises
+    alone, and its bus must have carried, and its units must hold, exactly what they do when the sequence runs alone."""
+    subs = case["jobs"]
+    refs = [Flight(c) for c in subs]
+    jobs = [Flight(c, faults_from=r) for c, r in zip(subs, refs)]
+    order = []
+    ocs = run_interleaved([(j.bus, j.seq) for j in jobs], case.get("schedule") or (), case.get("cycle") or None, order=order)
+    LAST_INTER[0] = (id(case), overlapping(order, len(jobs)))
+    out, seen = [], set()
+
+    def add(sig, msg):
+        if sig not in seen:
+            seen.add(sig)
+            out.append((sig, msg))
+
+    for i, (job, oc, ref) in enumerate(zip(jobs, ocs, refs)):
+        vs = job.finish(oc)
+        rvs = ref.run_alone()
+        for sig, msg in rvs:                  # not a matter of interleaving: the sequence fails on its own
+            add(sig, msg)
+        alone = set(sig for sig, _ in rvs)
+        why = None
+        if job.result() != ref.result():
+            why = "outcome %r, alone %r" % (job.result(), ref.result())
+        else:
+            for (name, a), (rname, r) in zip(job.end_state(), ref.end_state()):
+                if name != rname or a != r:
+                    why = "%s: %r, alone %r" % (name, a, r)
+                    break
+        if why is None and [v for v in vs if v[0] not in alone]:
+            why = "%s: %s" % [v for v in vs if v[0] not in alone][0]
+        if why:
+            add("C13:interleaved-sequences-interfere:" + subs[i]["kind"],
+                "sequence #%d of %d in flight at the same time on separate buses (advance order %s; the others: %s): %s: %s"
+                % (i, len(jobs), order[:60], "; ".join(j.where() for k, j in enumerate(jobs) if k != i), job.where(), why))
+    return out
+
+
+def case_enumtable(case):
+    """The members of a library filter enum are exactly the standard's events, each with the standard's bit."""
+    L = _lib()
+    name = case["enum"]
+    cls = L[name].InstanceEventFilter
+    have = {nm: int(mem) for nm, mem in cls.__members__.items()}
+    want = FILTER_TABLE[name]
+    bad = ["%s = %d (standard: %d)" % (nm, have[nm], want[nm]) for nm in sorted(want) if nm in have and have[nm] != want[nm]]
+    missing = sorted(nm for nm in want if nm not in have)
+    extra = sorted(nm for nm in have if nm not in want)
+    out = []
+    if bad:
+        out.append(("C13:filter-enum-member-value:" + name, "dali.device.%s.InstanceEventFilter: %s" % (name, "; ".join(bad))))
+    if missing or extra:
+        out.append(("C13:filter-enum-members:" + name, "dali.device.%s.InstanceEventFilter: missing members %r, members the "
+                    "standard does not have %r" % (name, missing, extra)))
+    return out
+
+
 def run_case(case):
+    if case["kind"] == "interleaved":
+        return case_interleaved(case)
+    if case["kind"] == "enumtable":
+        return case_enumtable(case)
+    if case.get("names") is not None:
+        cls = _lib()[case["enum"]].InstanceEventFilter
+        gone = [nm for nm in case["names"] if nm not in cls.__members__]
+        if gone:
+            return [("C13:filter-enum-members:" + case["enum"], "dali.device.%s.InstanceEventFilter has no member %r"
+                     % (case["enum"], gone))]
     return drive(BUILDERS[case["kind"]](case), case.get("fault"))
 
 
@@ -580,9 +896,12 @@ def nontrivial(case):
     if k == "input":
         return case["res"] > 8
     if k in ("setfilter", "queryfilter"):
-        return case["enum"] == "gen" and len(case["bits"]) > 8
+        return bool(case.get("names")) or (case["enum"] == "gen" and len(case["bits"]) > 8)
+    if k == "enumtable":
+        return True
     if k == "discover":
-        return any(x in ("unhealthy-device", "disabled-instance", "duplicate-address") for x in population_features(case))
+        return bool(case.get("before")) or any(x in ("unhealthy-device", "disabled-instance", "duplicate-address")
+                                               for x in population_features(case))
     return False
 
 
@@ -593,7 +912,9 @@ def classify(case):
         labs.append("input:%d-byte" % ((case["res"] + 7) // 8))
     elif k in ("setfilter", "queryfilter"):
         w = width_of(len(case["bits"])) if case["enum"] == "gen" else 8
-        labs.append("%s:%s:%d-bit" % (k, case["enum"], w))
+        labs.append("%s:%s:%d-bit%s" % (k, case["enum"], w, ":by-name" if case.get("names") is not None else ""))
+    elif k == "enumtable":
+        labs.append("filter-enum-table:" + case["enum"])
     elif k == "scheme":
         labs.append("scheme:" + ("valid" if 0 <= case["scheme"] <= 4 else "invalid"))
     else:
@@ -601,6 +922,8 @@ def classify(case):
         labs.append("discover:%s-devices" % ("0" if n == 0 else "1-4" if n <= 4 else "5-16" if n <= 16 else "17-64"))
         labs.append("discover:selector-" + case["selector"][0])
         labs += ["discover:" + x for x in population_features(case)]
+        if case.get("before"):
+            labs.append("discover:mapper-used-before:%s:%s" % (case["before"]["how"], "cleared" if case["before"].get("clear", True) else "kept"))
     if case.get("fault"):
         labs.append("%s:fault-%s" % (k, case["fault"][1]))
     return labs
@@ -708,7 +1031,32 @@ def population_st(draw):
         if k == "tuple" and len(lst) == 2:
             lst = lst + [lst[0]]
         sel = [k, lst]
-    return {"kind": "discover", "devices": devs, "selector": sel, "fault": draw(fault_st(2))}
+    case = {"kind": "discover", "devices": devs, "selector": sel, "fault": draw(fault_st(2))}
+    # the other iterables a caller may pass for "an iterable of ints"
+    if sel[0] in ("list", "gen"):
+        form = draw(st.sampled_from(["same", "same", "iter", "map", "filter", "range"]))
+        if form == "range":
+            lo = draw(st.integers(0, 63))
+            sel[0], sel[1] = "range", list(range(lo, draw(st.integers(lo, min(63, lo + 12))) + 1))
+        elif form != "same":
+            sel[0] = form
+    # the mapper object was in use before: another population (overlapping addresses, other types), then clear()
+    if draw(st.integers(0, 3)) == 0:
+        earlier = []
+        for d in devs[:6]:
+            what = draw(st.integers(0, 3))
+            if what == 0:
+                continue
+            e = {"short": d["short"], "status": 0 if what == 1 else d["status"],
+                 "inst": [[True, (t + what) % 32] for (en, t) in d["inst"]][:6] + ([[True, 7]] if what == 3 else [])}
+            earlier.append(e)
+        if draw(st.booleans()):
+            earlier.append({"short": draw(st.integers(0, 63)), "status": 0, "inst": [[True, draw(st.integers(0, 31))]]})
+        shorts = [e["short"] for e in earlier if e["short"] is not None]
+        case["before"] = {"how": draw(st.sampled_from(["initial", "add_type", "scan"])), "devices": earlier,
+                          "selector": ["list", shorts] if shorts and draw(st.booleans()) else ["default"],
+                          "clear": draw(st.sampled_from([True, True, True, False]))}
+    return case
 
 
 def discover_reducer(case):
@@ -731,7 +1079,7 @@ def discover_reducer(case):
                 c = copy.deepcopy(case)
                 c["devices"][i]["inst"] = c["devices"][i]["inst"][:keep]
                 yield c
-    if case["selector"][0] in ("list", "gen", "tuple") and case["selector"][1]:
+    if case["selector"][0] in ITERABLE_FORMS and case["selector"][1]:
         c = copy.deepcopy(case)
         c["selector"][1] = c["selector"][1][:-1]
         if not (c["selector"][0] == "tuple" and len(c["selector"][1]) == 2):
@@ -765,7 +1113,221 @@ FIXED_POPULATIONS = [
      for a in range(64)],
 ]
 FIXED_SELECTORS = [["default"], ["int", 0], ["int", 13], ["int", 64], ["pair", 0, 63], ["pair", 7, 12], ["pair", 63, 63],
-                   ["list", [63, 12, 3, 7, 8, 9, 10]], ["gen", [0, 3, 63]], ["tuple", [12, 10, 63]], ["list", []]]
+                   ["list", [63, 12, 3, 7, 8, 9, 10]], ["gen", [0, 3, 63]], ["tuple", [12, 10, 63]], ["list", []],
+                   ["iter", [63, 12, 3, 0]], ["map", [7, 8, 63, 3]], ["filter", [0, 3, 12, 63]], ["range", list(range(3, 13))],
+                   ["range", [63]], ["gen", []], ["iter", [10, 10, 63]]]
+
+
+# --------------------------------------------------- several sequences in flight ----
+def _inter(jobs, schedule, cycle=None):
+    return {"kind": "interleaved", "jobs": jobs, "schedule": list(schedule), "cycle": list(cycle or [])}
+
+
+# (schedule, cycle) for two sequences: the schedule is used first, then the cycle repeatedly; a cycle naming only a
+# finished sequence falls back to round-robin (so ([0, 0], [1]) = #0 advances twice, then #1 runs from start to end
+# inside #0, then #0 finishes, and ([], [0]) = strictly one after the other)
+PAIR_ORDERS = [
+    ([], [0, 1]), ([], [1, 0]),                                                 # round-robin, reversed
+    ([], [0, 0, 1, 1]), ([], [1, 1, 0, 0]), ([], [0, 0, 0, 1, 1, 1]), ([], [1, 1, 1, 0, 0, 0]),    # blocks of 2 / 3
+    ([], [0, 1, 1]), ([], [0, 0, 1]), ([], [0, 1, 1, 1]),                         # uneven speeds
+    ([0], [1, 0]), ([0, 0], [1, 0]), ([0, 0, 0], [1, 0]), ([1], [0, 1]), ([1, 1, 1], [0, 1]),      # head starts
+    ([0], [1]), ([0, 0], [1]), ([0, 0, 0], [1]), ([0] * 5, [1]),                  # #1 completely inside #0
+    ([1], [0]), ([1, 1], [0]), ([1, 1, 1], [0]), ([1] * 5, [0]),                  # #0 completely inside #1
+    ([], [0]), ([], [1]),                                                       # strictly sequential
+]
+TRIPLE_ORDERS = [([], [0, 1, 2]), ([], [2, 1, 0]), ([], [1, 2, 0]), ([0], [2, 1, 0]), ([0, 0], [1, 2, 0]), ([0, 1], [2, 0, 1]),
+                 ([], [0, 0, 1, 1, 2, 2]), ([0, 1, 1], [2, 0, 1]), ([0, 0, 0, 1], [2, 1, 0]), ([0], [1, 2]), ([0, 1], [2]),
+                 ([], [0, 0, 0, 1, 1, 1, 2, 2, 2]), ([], [0])]
+
+
+def eight_orders():
+    """Every order of the first eight advances of two sequences in which each advances four times."""
+    out = []
+    for ones in itertools.combinations(range(8), 4):
+        out.append([1 if i in ones else 0 for i in range(8)])
+    return out
+
+
+POP_A = FIXED_POPULATIONS[2]
+# the same addresses as POP_A hold other things on the other line
+POP_B = [{"short": 63, "status": 0x00, "inst": [[True, 4], [True, 3], [False, 1]]},
+         {"short": 7, "status": 0x00, "inst": [[True, 6]]},
+         {"short": 12, "status": 0x08, "inst": [[True, 2], [True, 2]]},
+         {"short": 3, "status": 0x40, "inst": [[True, 1]]}]
+
+
+def palette(seed, extra):
+    """Cases that address the same device and instance (5 / 0, the builders' default) on their separate buses but
+    carry different values, widths and stale DTR contents; `extra` further seed-derived ones."""
+    def m(k):
+        return (seed * 40503 + k * 25717 + 0x1234) & 0xFFFFFFFF
+
+    def sf(enum, value, stale, bits=None, mask=None, fault=None, as_int=False):
+        c = {"kind": "setfilter", "enum": enum, "value": value, "stale": stale, "mask": mask, "as_int": as_int, "fault": fault}
+        if bits is not None:
+            c["bits"] = bits
+        return c
+
+    def qf(enum, unit, bits=None, via=False, fault=None):
+        c = {"kind": "queryfilter", "enum": enum, "unit": unit, "via_module": via, "as_int": bool(unit & 1), "fault": fault}
+        if bits is not None:
+            c["bits"] = bits
+        return c
+
+    def sc(scheme, initial, as_enum=True, refuse=(), stale0=0xFF, fault=None):
+        return {"kind": "scheme", "scheme": scheme, "as_enum": as_enum, "initial": initial, "refuse": list(refuse),
+                "stale0": stale0, "as_int": not as_enum, "fault": fault}
+
+    def iv(res, value, pass_res, filler="repeat", nxt=None, fault=None):
+        return {"kind": "input", "res": res, "value": value, "pass_res": pass_res, "filler": filler, "as_int": bool(res & 1),
+                "next": nxt, "fault": fault}
+
+    def dv(devices, selector, fault=None):
+        return {"kind": "discover", "devices": devices, "selector": selector, "fault": fault}
+
+    b12, b16, b17, b24 = list(range(12)), list(range(16)), list(range(17)), list(range(24))
+    jobs = [
+        sf("int", 0x4D, [0xFF, 0xFF, 0xFF], as_int=True), sf("pushbutton", 0x96, [0, 0, 0]), sf("occupancy", 0x1B, [0xA5, 0x5A, 0x3C]),
+        sf("gen", 0xA5C, [0x11, 0x22, 0x33], b12), sf("gen", 0x8001, [0xFF, 0xFF, 0xFF], b16), sf("gen", 0xC35A96, [0, 0, 0], b24),
+        sf("gen", 0x3CA569, [0xA5, 0x5A, 0x3C], b24, mask=0xFFFF0F), sf("gen", 0x10001, [0x00, 0xFF, 0xFF], b17),
+        sf("gen", 0x5A96C3, [0x11, 0x22, 0x5A], b24, fault=[1, "garble"]),
+        qf("pushbutton", 0xE7, via=True), qf("light", 0x01), qf("gen", 0x5A3, b12), qf("gen", 0x123456, b24),
+        qf("gen", 0xFEDCBA, b24), qf("gen", 0x10203, b17, fault=[1, "silence"]),
+        sc(3, 0), sc(1, 4, as_enum=False), sc(2, 0, refuse=[2], stale0=3), sc(7, 2, as_enum=False, stale0=0), sc(0, 3, stale0=3),
+        sc(4, 1, fault=[0, "garble"]),
+        iv(3, 5, True), iv(8, 0xA7, False), iv(12, 0xABC, False), iv(16, 0x1234, True), iv(20, 0xF0F0F, False, filler=0),
+        iv(24, 0x123456, True, filler=0xFF), iv(32, 0xDEADBEEF, False), iv(32, 0x01020304, True), iv(9, 0x155, False, nxt=0x0AA),
+        iv(17, 0x9C3A6E51 & 0x1FFFF, False, fault=[2, "garble"]),
+        dv(FIXED_POPULATIONS[1], ["pair", 0, 7]), dv(POP_A, ["list", [63, 12, 3, 7, 8, 9, 10]]), dv(POP_B, ["list", [63, 12, 3, 7]]),
+        dv(POP_B, ["gen", [7, 63]]), dv(FIXED_POPULATIONS[3], ["int", 5]), dv(POP_A, ["tuple", [12, 10, 63]], fault=[3, "silence"]),
+    ]
+    for k in range(extra):
+        r = m(10 + 3 * k)
+        which = k % 4
+        if which == 0:
+            bits = [b12, b16, b17, b24, list(range(9)), list(range(20))][(r >> 4) % 6]
+            allv = (1 << len(bits)) - 1
+            jobs.append(sf("gen", r & allv, [(r >> 24) & 0xFF, (r >> 8) & 0xFF, (r >> 16) & 0xFF], bits))
+        elif which == 1:
+            bits = [b12, b16, b17, b24][(r >> 4) % 4]
+            jobs.append(qf("gen", m(11 + 3 * k) & ((1 << width_of(len(bits))) - 1), bits))
+        elif which == 2:
+            res = 1 + (r >> 5) % 32
+            jobs.append(iv(res, m(11 + 3 * k) & ((1 << res) - 1), bool(r & 1), filler=["repeat", 0, 0xFF, 0xA5][(r >> 1) % 4]))
+        else:
+            jobs.append(sc((r >> 3) % 5, (r >> 7) % 5, as_enum=bool(r & 1), stale0=(r >> 10) & 0xFF))
+        if k % 8 >= 4:
+            # other lines address other devices and instances
+            jobs[-1]["dev"], jobs[-1]["inst"] = (r >> 12) % 64, [1, 2, 5, 31][(r >> 18) % 4]
+    return jobs
+
+
+def _differ(case):
+    return any(j != case["jobs"][0] for j in case["jobs"][1:])
+
+
+def _kinds(case):
+    return "+".join(j["kind"] for j in case["jobs"])
+
+
+def _long(job):
+    """Does the sequence put at least four commands on the bus?"""
+    k = job["kind"]
+    if k == "setfilter":
+        return True
+    if k == "input":
+        return job["res"] > 16 or (job["res"] > 8 and not job.get("pass_res"))
+    return k == "discover"
+
+
+@st.composite
+def small_population_st(draw):
+    """A discovery case on a small line whose devices sit at a handful of addresses (so that two lines hold different
+    things at the same address)."""
+    n = draw(st.integers(0, 4))
+    devs = []
+    for k in range(n):
+        short = draw(st.sampled_from([0, 3, 7, 63, 63, None]))
+        status = draw(st.sampled_from(STATUS_HEALTHY)) if draw(st.integers(0, 3)) else draw(st.sampled_from(STATUS_BAD))
+        inst = [[draw(st.integers(0, 4)) != 0, draw(st.integers(0, 31))] for _ in range(draw(st.integers(0, 4)))]
+        devs.append({"short": short, "status": status, "inst": inst})
+    sel = draw(st.sampled_from([["list", [63, 3, 0, 7]], ["gen", [0, 3, 7, 63]], ["pair", 0, 7], ["pair", 60, 63], ["int", 8],
+                                ["tuple", [7, 3, 0]], ["list", [3, 3, 63]]]))
+    return {"kind": "discover", "devices": devs, "selector": sel, "fault": draw(fault_st(4)),
+            "preload": draw(st.booleans())}
+
+
+@st.composite
+def inter_st(draw):
+    n = draw(st.sampled_from([2, 2, 3]))
+    jobs = [dict(draw(st.one_of(input_st(), input_st(), filter_st(), filter_st(), filter_st(), scheme_st(), small_population_st())))
+            for _ in range(n)]
+    if draw(st.integers(0, 3)):
+        # the same device and instance address on every line
+        for j in jobs[1:]:
+            if "dev" in j and "dev" in jobs[0]:
+                j["dev"], j["inst"] = jobs[0]["dev"], jobs[0]["inst"]
+    sched = draw(st.lists(st.integers(0, n - 1), max_size=24))
+    cycle = draw(st.one_of(st.just([]), st.permutations(list(range(n))), st.lists(st.integers(0, n - 1), min_size=1, max_size=6)))
+    return _inter(jobs, sched, list(cycle))
+
+
+def _shard_inter(arg):
+    what = arg[0]
+    res = Result()
+
+    def go(case, label):
+        res.count()
+        vs = run_case(case)
+        if LAST_INTER[0][1] and _differ(case):
+            res.nontrivial()
+        res.label(label)
+        for sig, msg in vs:
+            res.violation(sig, case, msg)
+
+    if what == "pairs":
+        # every case of the palette as #1 against case number `first` as #0, in every listed advance order
+        # (quick tier: every ostride-th order, rotating with the pair, so that neighbouring pairs cover all orders)
+        _, seed, extra, first, ostride = arg
+        pal = palette(seed, extra)
+        a = pal[first]
+        for bi, b in enumerate(pal):
+            for oi, (sched, cyc) in enumerate(PAIR_ORDERS):
+                if (oi + bi + first + seed) % ostride:
+                    continue
+                c = _inter([a, b], sched, cyc)
+                go(c, "interleaved:" + _kinds(c))
+        if first == 5:
+            res.sample(_inter([pal[5], pal[3]], [0], [1, 0]), cls="interleaved pair")
+    elif what == "eight":
+        _, seed, extra, stride, offset = arg
+        long_ = [j for j in palette(seed, extra) if _long(j)]
+        k = 0
+        for a in long_:
+            for b in long_:
+                k += 1
+                if k % stride != offset:
+                    continue
+                for order in eight_orders():
+                    c = _inter([a, b], order)
+                    go(c, "interleaved:first-eight-advances:" + _kinds(c))
+    elif what == "triples":
+        _, seed, extra, stride, offset = arg
+        pal = palette(seed, extra)
+        n = len(pal)
+        for i in range(offset, n, stride):
+            for d1, d2 in ((1, 2), (5, 11), (13, 7), (0, 9)):
+                for sched, cyc in TRIPLE_ORDERS:
+                    go(_inter([pal[i], pal[(i + d1) % n], pal[(i + d2) % n]], sched, cyc), "interleaved:three")
+        if offset == 0:
+            res.sample(_inter([pal[5], pal[12], pal[27]], [], [2, 1, 0]), cls="interleaved triple")
+    elif what == "hyp":
+        _, seed, n = arg
+        hyp.search(inter_st(), run_case, res, n, seed, ID,
+                   nontrivial=lambda c: LAST_INTER[0] is not None and LAST_INTER[0][0] == id(c) and LAST_INTER[0][1] and _differ(c),
+                   classify=lambda c: ["hyp:interleaved:%d" % len(c["jobs"])] + sorted(set("hyp:interleaved:has-" + j["kind"] for j in c["jobs"])),
+                   extra_rounds_budget_s=10.0)
+    return res
 
 
 def boundary_values(res):
@@ -780,6 +1342,8 @@ def boundary_values(res):
 
 def _shard(arg):
     kind = arg[0]
+    if kind == "inter":
+        return _shard_inter(arg[1:])
     res = Result()
 
     def run(case, label=None):
@@ -869,6 +1433,20 @@ def _shard(arg):
                 with_faults(q)
         res.sample({"kind": "setfilter", "enum": "gen", "bits": list(range(24)), "value": 0xC35A96, "stale": [0x11, 0x22, 0xC3],
                     "fault": [1, "garble"]}, cls="set filter under fault")
+    elif kind == "filter-names":
+        # the library's enums used the way callers use them: by member name
+        _, name = arg
+        run({"kind": "enumtable", "enum": name})
+        table = sorted(FILTER_TABLE[name].items(), key=lambda kv: kv[1])
+        for sub in range(1 << len(table)):
+            names = [nm for k, (nm, bit) in enumerate(table) if (sub >> k) & 1]
+            bits = sum(bit for k, (nm, bit) in enumerate(table) if (sub >> k) & 1)
+            run({"kind": "setfilter", "enum": name, "names": names, "value": bits, "stale": STALES[sub % 3], "mask": None,
+                 "dev": sub % 64, "inst": sub % 3, "as_int": bool(sub & 1), "fault": None})
+            run({"kind": "queryfilter", "enum": name, "names": names, "unit": bits, "via_module": bool(sub & 2), "dev": sub % 64,
+                 "inst": sub % 4, "as_int": bool(sub & 1), "fault": None})
+        res.sample({"kind": "setfilter", "enum": name, "names": [table[0][0], table[-1][0]], "value": table[0][1] | table[-1][1],
+                    "stale": STALES[2], "mask": None}, cls="set filter composed by member name")
     elif kind == "queryfilter-lib":
         _, name = arg
         for f in range(256):
@@ -912,6 +1490,26 @@ def _shard(arg):
             res.sample({"kind": "discover", "devices": pop, "selector": ["default"], "fault": [5, "garble"]}, cls="discovery under fault")
         if pi == 3:
             with_faults({"kind": "discover", "devices": pop, "selector": ["pair", 3, 3], "fault": None})
+    elif kind == "discover-reuse":
+        # ONE mapper object over time: filled (initial= / add_type() / a scan of an earlier population), cleared or
+        # not, then this scan; afterwards .mapping, get_type() and decoding must all show exactly what the oracle of a
+        # single scan demands (not cleared: entries of the earlier use may remain where this scan did not look)
+        _, hi = arg
+        pops = FIXED_POPULATIONS[:4] + [POP_B, [{"short": 63, "status": 0, "inst": [[True, 9], [True, 9], [True, 9], [True, 9], [True, 9]]},
+                                                {"short": 0, "status": 0, "inst": [[True, 2]]}]]
+        how = ["initial", "add_type", "scan"][hi]
+        for p1, earlier in enumerate(pops):
+            for p2, pop in enumerate(pops):
+                for si, sel in enumerate((["default"], ["list", [63, 12, 3, 7, 8, 9, 10, 0]], ["iter", [0, 63]], ["pair", 60, 63])):
+                    for clear in (True, False):
+                        c = {"kind": "discover", "devices": pop, "selector": sel, "fault": None,
+                             "before": {"how": how, "devices": earlier, "selector": [["default"], ["gen", [63, 7, 3, 0]]][(p1 + si) % 2],
+                                        "clear": clear}}
+                        run(c)
+        with_faults({"kind": "discover", "devices": POP_A, "selector": ["map", [63, 12, 7]], "fault": None,
+                     "before": {"how": how, "devices": POP_B, "selector": ["default"], "clear": True}})
+        res.sample({"kind": "discover", "devices": POP_A, "selector": ["default"], "fault": None,
+                    "before": {"how": how, "devices": POP_B, "selector": ["default"], "clear": True}}, cls="mapper re-used after clear()")
     elif kind == "hyp":
         _, seed, n = arg
 
@@ -958,6 +1556,7 @@ def run(ctx):
         shards.append(("setfilter-lib", name))
     for name in ("pushbutton", "occupancy", "light"):
         shards.append(("queryfilter-lib", name))
+        shards.append(("filter-names", name))
     for bits in GEN_BITS:
         shards.append(("setfilter-gen", bits, not q))
         shards.append(("queryfilter-gen", bits))
@@ -965,13 +1564,28 @@ def run(ctx):
     shards.append(("scheme",))
     for pi in range(len(FIXED_POPULATIONS)):
         shards.append(("discover-fixed", pi))
+    for hi in range(3):
+        shards.append(("discover-reuse", hi))
     for k in range(16):
         shards.append(("hyp", s * 1000 + k, 500 if q else 6000))
         shards.append(("hyp-discover", s * 1000 + 500 + k, 120 if q else 2000))
+    # several sequences in flight at the same time, each on its own bus
+    extra = 8 if q else 40
+    npal = len(palette(s, extra))
+    for first in range(npal):
+        shards.append(("inter", "pairs", s, extra, first, 4 if q else 1))
+    for k in range(8):
+        if k < 4 or not q:
+            shards.append(("inter", "eight", s, extra, 80 if q else 8, (s + k) % 8))
+        shards.append(("inter", "triples", s, extra, 8, k))
+    for k in range(16):
+        shards.append(("inter", "hyp", s * 1000 + 700 + k, 60 if q else 1500))
     # longest first
     order = {"hyp-discover": 0, "hyp": 1, "discover-fixed": 2, "input-enum": 3}
     shards.sort(key=lambda a: order.get(a[0], 4))
     ctx.pmap(_shard, shards)
+    ctx.result.extra["sequences_in_flight"] = ("ordered pairs of a %d-case palette x %d advance orders, first-eight-advance orders, "
+                                               "triples, Hypothesis sample (not exhaustive)" % (npal, len(PAIR_ORDERS)))
     ctx.result.exhaustive = False
     ctx.result.extra["input_values_complete_up_to_bits"] = complete
     ctx.result.extra["generated_filter_enums"] = len(GEN_BITS)
